@@ -73,4 +73,22 @@ META = {
         'note': 'The prefix/consumption meta-lemmas that lift this to whole encodings are argued, not mechanised.',
         'technique': 'contracts with exceptional postconditions (raises-iff) + VC generation, z3',
     },
+    'C12': {
+        'text': 'raises-iff contracts on every leaf of the type checker (well-typed values are never rejected, ill-typed ones always), '
+                'and exceptional postconditions on the CHOICE / Recursive / CompiledType wrappers of the type checker, the '
+                'constraints checker and the BER/XER codecs: the error location ends with the component just traversed.',
+        'note': 'Reduced: SEQUENCE/SET member loops and the PER/OER/JER/GSER wrappers are not under contract; foreign exceptions of '
+                'the codecs for values that passed the checks are only covered where an encode contract exists.',
+        'technique': 'contracts with exceptional postconditions + VC generation over the python ast, z3',
+    },
+    'C17': {
+        'category': 'other',
+        'text': 'Key-determines-result for the compile cache as data-flow obligations on the real AST of _compile_files_cache and '
+                'compile_files (9 obligations): every input of the miss branch flows into the key, raw file bytes, length-prefixed '
+                'framing, prefix-free codec names, identical arguments on the cached and uncached paths.',
+        'note': 'Crash points, damaged cache files and diskcache/sqlite semantics are assumed, not decided; this is a static data-flow '
+                'argument, not an SMT proof.',
+        'technique': 'data-flow obligations over the python ast (no SMT)',
+        'engine': 'pyvc-own',
+    },
 }
